@@ -7,8 +7,8 @@ spelling that no longer finds a level is a broken tie (reported), never silently
 
 # (key, surface text) ; key is what generators and known-findings use
 BINARY = [
-    ("||", "||"), ("->>", "->>"), ("->", "->"), ("#>>", "#>>"), ("#>", "#>"), ("@>", "@>"), ("<@", "<@"),
-    ("?|", "?|"), ("?&", "?&"), ("#-", "#-"),
+    ("||", "||"), ("->>", "->>"), ("@>", "@>"), ("<@", "<@"),
+    ("?|", "?|"), ("?&", "?&"),
     ("*", "*"), ("/", "/"), ("%", "%"), ("+", "+"), ("-", "-"), ("&", "&"), ("|", "|"),
     (">=", ">="), ("<=", "<="), ("<", "<"), (">", ">"),
     ("==", "=="), ("=", "="), ("!=", "!="), ("<>", "<>"),
@@ -27,9 +27,8 @@ CAST = [("::", "::")]
 
 # documented operator names (README "Notes" / tests): spelling key -> JSON name
 DOCUMENTED_NAME = {
-    "||": "concat", "->>": "json_get_text", "->": "json_get", "#>>": "json_path_text", "#>": "json_path",
+    "||": "concat", "->>": "json_get_text",
     "@>": "json_subsumes", "<@": "json_subsumed_by", "?|": "json_contains_any", "?&": "json_contains_all",
-    "#-": "json_path_del",
     "*": "mul", "/": "div", "%": "mod", "+": "add", "-": "sub", "&": "binary_and", "|": "binary_or",
     ">=": "gte", "<=": "lte", "<": "lt", ">": "gt", "==": "eq", "=": "eq", "!=": "neq", "<>": "neq",
     "is distinct from": "eq!", "<=>": "eq!", "is not distinct from": "ne!",
@@ -62,3 +61,58 @@ SQLITE_ORDER = [
     ["and"],
     ["or"],
 ]
+
+# Reference precedence classes for expression operators, tightest first (see SQLITE_ORDER above):
+# SQLite's classes, with the library's own sub-order inside SQLite's big "equality" class for
+# IS / IN / LIKE-family / BETWEEN, plus the library-only operators where the library puts them.
+# (kind, [operator keys])
+REF_LEVELS = [
+    ("suf", ["::"], "cast"),
+    ("bin", ["collate"], "collate"),
+    ("pre", ["u~", "u+", "u-"], None),  # SQLite: one class; label None = members are named individually in finding keys
+    ("bin", ["||"], "concat"),
+    ("bin", ["->>", "@>", "<@", "?|", "?&"], "json"),  # library-only position (right below ||)
+    ("bin", ["*", "/", "%"], "mul"),
+    ("bin", ["+", "-"], "add"),
+    ("bin", ["&", "|"], None),
+    ("bin", ["<", "<=", ">", ">="], "cmp"),
+    ("bin", ["=", "==", "<>", "!=", "is distinct from", "<=>", "is not distinct from"], "eq"),
+    ("bin", ["at time zone"], "at_time_zone"),
+    ("tern", ["between"], "between"),
+    ("tern", ["not between"], "not_between"),
+    ("bin", ["in"], "in"),
+    ("bin", ["not in"], "nin"),
+    ("bin", ["is not"], "is_not"),
+    ("bin", ["is"], "is"),
+    ("bin", ["like"], "like"),
+    ("bin", ["ilike"], "ilike"),
+    ("bin", ["not like"], "not_like"),
+    ("bin", ["not ilike"], "not_ilike"),
+    ("bin", ["rlike"], "rlike"),
+    ("bin", ["not rlike"], "not_rlike"),
+    ("bin", ["similar to"], "similar_to"),
+    ("bin", ["not similar to"], "not_similar_to"),
+    ("bin", ["regexp", "not regexp", "~", "~*", "!~", "!~*"], "regexp"),
+    ("pre", ["not"], "not"),
+    ("bin", ["and"], "and"),
+    ("bin", ["or"], "or"),
+    ("bin", [":="], "assign"),
+]
+
+
+def ref_level_of():
+    out = {}
+    for i, (kind, keys, label) in enumerate(REF_LEVELS):
+        for k in keys:
+            out[k] = (i, kind)
+    return out
+
+
+def ref_label_of():
+    """operator key -> label used in finding keys (class label, or the operator's own name for
+    reference classes that the library is known to split)"""
+    out = {}
+    for kind, keys, label in REF_LEVELS:
+        for k in keys:
+            out[k] = label if label is not None else DOCUMENTED_NAME[k]
+    return out
